@@ -57,9 +57,45 @@ structure TInv (c : Cfg) (s : St) : Prop where
   stages : ∀ i, s.run = some i → ∀ st ∈ i.kstarts, StageOk c s.now i st
   rounds : ∀ p i, s.paused = some p → s.known = true → s.killerDone = false → s.run = some i →
     s.now ≤ firstDue p i.since ∨ firstDue p i.since ∈ i.kstarts
+  /-- the object is gone (its DELETED event was processed at `g`): past that instant, `stop_daemon(deleted)`
+      has been started at `g` for whatever still runs -/
+  gone : c.stopsGone = true → ∀ g i, s.goneAt = some g → s.run = some i →
+    (g ∈ i.kstarts ∧ Reason.deleted ∈ i.reasons) ∨ s.now = g
+  /-- the killer's exit sweep began at `x`: past that instant (or once the killer is gone), `stop_daemon(exiting)`
+      has been started at `x` for every instance the sweep had to list -/
+  exit : ∀ x i, s.exitAt = some x → s.run = some i → s.exitDue c i x = true →
+    (x ∈ i.kstarts ∧ Reason.exiting ∈ i.reasons) ∨ (s.now = x ∧ s.killerDone = false)
+  exitLe : ∀ x, s.exitAt = some x → x ≤ s.now
 
 theorem tinv_init (c : Cfg) (t0 : Tick) : TInv c (St.init t0) := by
-  refine ⟨?_, ?_, ?_, ?_⟩ <;> intros <;> simp_all [St.init]
+  refine ⟨?_, ?_, ?_, ?_, ?_, ?_, ?_⟩ <;> intros <;> simp_all [St.init]
+
+/-- what `tickOk` says when an instance runs -/
+theorem tickOk_parts {c : Cfg} {s : St} {d : Nat} {i : Inst} (hi : s.run = some i) (hok : tickOk c s d = true) :
+    (∀ st ∈ i.kstarts, (!c.timeout.isSome || i.cancelAt.isSome || decide (s.now + d ≤ st + c.b0)) = true ∧
+        (i.abandonAt.isSome || decide (s.now + d ≤ st + c.b0 + c.t0)) = true) ∧
+    (∀ p, s.paused = some p → s.known = true → s.killerDone = false →
+      (if (decide (nextRound p s.now ∈ i.kstarts) || decide (nextRound p s.now ≤ i.since)) = true
+        then decide (s.now + d ≤ nextRound p s.now + killerPeriod) else decide (s.now + d ≤ nextRound p s.now)) = true) ∧
+    (∀ g, s.goneAt = some g → c.stopsGone = true → (g ∈ i.kstarts ∧ Reason.deleted ∈ i.reasons) ∨ d = 0) ∧
+    (∀ x, s.exitAt = some x → s.exitDue c i x = true → s.killerDone = false →
+      (x ∈ i.kstarts ∧ Reason.exiting ∈ i.reasons) ∨ d = 0) := by
+  simp only [tickOk, hi, Bool.and_eq_true, List.all_eq_true] at hok
+  obtain ⟨⟨⟨h1, h2⟩, h3⟩, h4⟩ := hok
+  refine ⟨?_, ?_, ?_, ?_⟩
+  · intro st hst
+    have := h1 st hst
+    simpa [Bool.and_eq_true] using this
+  · intro p hp hkn hkd
+    simpa [hp, hkn, hkd] using h2
+  · intro g hg hc
+    simp only [hg, hc, Inst.has, Bool.not_true, Bool.false_or, Bool.or_eq_true, Bool.and_eq_true,
+      decide_eq_true_eq] at h3
+    exact h3
+  · intro x hx hdue hkd
+    simp only [hx, hdue, hkd, Inst.has, Bool.not_false, and_self, if_true, Bool.or_eq_true, Bool.and_eq_true,
+      decide_eq_true_eq] at h4
+    exact h4
 
 /-- the stages stay fine when the instance evolves at the same instant and at most a coroutine starting now
     is added -/
@@ -101,7 +137,7 @@ theorem tinv_update {c : Cfg} {s : St} (hb : 0 ≤ c.b0) (ht : 0 ≤ c.t0) (h : 
     {i i' : Inst} (hi : s.run = some i) (hinv' : InstInv c s.now i') (m : Mono i i')
     (hk : ∀ st ∈ i'.kstarts, st ∈ i.kstarts ∨ st = s.now) :
     TInv c { s with run := some i' } := by
-  refine ⟨t.pausedLe, ?_, ?_, ?_⟩
+  refine ⟨t.pausedLe, ?_, ?_, ?_, ?_, ?_, t.exitLe⟩
   · intro k hk'; simp at hk'; subst hk'; rw [m.since]; exact t.sinceLe i hi
   · intro k hk' st hst; simp at hk'; subst hk'
     exact stageOk_pres hb ht hinv' m (t.stages i hi) st (hk st hst)
@@ -110,6 +146,16 @@ theorem tinv_update {c : Cfg} {s : St} (hb : 0 ≤ c.b0) (ht : 0 ≤ c.t0) (h : 
     rcases t.rounds p i hp hkn hkd hi with h1 | h1
     · exact Or.inl h1
     · exact Or.inr (m.ks _ h1)
+  · intro hc g k hg hk'; simp at hk'; subst hk'
+    rcases t.gone hc g i hg hi with ⟨h1, h2⟩ | h1
+    · exact Or.inl ⟨m.ks _ h1, m.reasons _ h2⟩
+    · exact Or.inr h1
+  · intro x k hx hk' hdue; simp at hk'; subst hk'
+    have hdue0 : s.exitDue c i x = true := by
+      simp only [St.exitDue] at hdue ⊢; rw [m.since] at hdue; exact hdue
+    rcases t.exit x i hx hi hdue0 with ⟨h1, h2⟩ | h1
+    · exact Or.inl ⟨m.ks _ h1, m.reasons _ h2⟩
+    · exact Or.inr h1
 
 theorem tinv_step {c : Cfg} {s s' : St} (hb : 0 ≤ c.b0) (ht : 0 ≤ c.t0) (h : Inv c s) (t : TInv c s)
     (l : Label) (hs : step c s l = some s') : TInv c s' := by
@@ -119,15 +165,12 @@ theorem tinv_step {c : Cfg} {s s' : St} (hb : 0 ≤ c.b0) (ht : 0 ≤ c.t0) (h :
     obtain ⟨h1, hok⟩ := step_tick hs
     subst h1
     have hd : (0 : Int) ≤ (d : Int) := Int.natCast_nonneg d
-    refine ⟨?_, ?_, ?_, ?_⟩
+    refine ⟨?_, ?_, ?_, ?_, ?_, ?_, ?_⟩
     · intro p hp; have := t.pausedLe p hp; show p ≤ s.now + d; tick_omega
     · intro i hi; have := t.sinceLe i hi; show i.since ≤ s.now + d; tick_omega
     · intro i hi st hst
       simp only at hi
-      have hall : (!c.timeout.isSome || i.cancelAt.isSome || decide (s.now + d ≤ st + c.b0)) = true ∧
-          (i.abandonAt.isSome || decide (s.now + d ≤ st + c.b0 + c.t0)) = true := by
-        simp only [tickOk, hi, Bool.and_eq_true, List.all_eq_true] at hok
-        exact hok.1 st hst
+      have hall := (tickOk_parts hi hok).1 st hst
       simp only [Bool.or_eq_true, Bool.not_eq_true', decide_eq_true_eq] at hall
       obtain ⟨h1, h2⟩ := t.stages i hi st hst
       constructor
@@ -151,10 +194,7 @@ theorem tinv_step {c : Cfg} {s s' : St} (hb : 0 ≤ c.b0) (ht : 0 ≤ c.t0) (h :
       simp only at hp hkn hkd hi
       rcases t.rounds p i hp hkn hkd hi with hle | hin
       · -- the clock may reach the due round, not pass it unswept
-        have hok2 : (if (decide (nextRound p s.now ∈ i.kstarts) || decide (nextRound p s.now ≤ i.since)) = true
-            then decide (s.now + d ≤ nextRound p s.now + killerPeriod) else decide (s.now + d ≤ nextRound p s.now)) = true := by
-          simp only [tickOk, hi, hp, hkn, hkd, Bool.and_eq_true] at hok
-          simpa using hok.2
+        have hok2 := (tickOk_parts hi hok).2.1 p hp hkn hkd
         have hcases := nextRound_cases p i.since s.now (t.pausedLe p hp) (t.sinceLe i hi) hle
         by_cases hc : (decide (nextRound p s.now ∈ i.kstarts) || decide (nextRound p s.now ≤ i.since)) = true
         · rw [if_pos hc] at hok2
@@ -177,10 +217,26 @@ theorem tinv_step {c : Cfg} {s s' : St} (hb : 0 ≤ c.b0) (ht : 0 ≤ c.t0) (h :
           · left; show s.now + d ≤ firstDue p i.since; rw [← he]; exact hok2
           · exact absurd hle2 hc.2
       · exact Or.inr hin
+    · intro hc g i hg hi
+      simp only at hg hi
+      rcases t.gone hc g i hg hi with h1 | h1
+      · exact Or.inl h1
+      · rcases (tickOk_parts hi hok).2.2.1 g hg hc with h2 | h2
+        · exact Or.inl h2
+        · right; show s.now + (d : Int) = g; rw [h2, h1]; simp
+    · intro x i hx hi hdue
+      simp only at hx hi
+      have hdue0 : s.exitDue c i x = true := hdue
+      rcases t.exit x i hx hi hdue0 with h1 | ⟨h1, h1d⟩
+      · exact Or.inl h1
+      · rcases (tickOk_parts hi hok).2.2.2 x hx hdue0 h1d with h2 | h2
+        · exact Or.inl h2
+        · right; refine ⟨?_, h1d⟩; show s.now + (d : Int) = x; rw [h2, h1]; simp
+    · intro x hx; have := t.exitLe x hx; show x ≤ s.now + d; tick_omega
   | pause =>
     obtain ⟨h1, _⟩ := step_pause hs
     subst h1
-    refine ⟨?_, t.sinceLe, t.stages, ?_⟩
+    refine ⟨?_, t.sinceLe, t.stages, ?_, t.gone, t.exit, t.exitLe⟩
     · intro p hp; simp at hp; subst hp; exact Int.le_refl _
     · intro p i hp _ _ hi
       simp at hp; subst hp
@@ -195,23 +251,40 @@ theorem tinv_step {c : Cfg} {s s' : St} (hb : 0 ≤ c.b0) (ht : 0 ≤ c.t0) (h :
   | resume =>
     have h1 := step_resume hs
     subst h1
-    exact ⟨fun p hp => by simp at hp, t.sinceLe, t.stages, fun p i hp => by simp at hp⟩
+    exact ⟨fun p hp => by simp at hp, t.sinceLe, t.stages, fun p i hp => by simp at hp, t.gone, t.exit, t.exitLe⟩
   | kFinal =>
-    have h1 := step_kFinal hs
+    obtain ⟨h1, hx, hsw⟩ := step_kFinal hs
     subst h1
-    exact ⟨t.pausedLe, t.sinceLe, t.stages, fun p i _ _ hkd => by simp at hkd⟩
+    refine ⟨t.pausedLe, t.sinceLe, t.stages, fun p i _ _ hkd => by simp at hkd, t.gone, ?_, t.exitLe⟩
+    intro x i hx' hi hdue
+    simp only at hx' hi
+    have hdue0 : s.exitDue c i x = true := hdue
+    left
+    simp only [St.sweptForExit, hx', hi, hdue0, Inst.has, Bool.not_true, Bool.false_or, Bool.and_eq_true,
+      decide_eq_true_eq] at hsw
+    exact hsw
+  | exitBegin =>
+    obtain ⟨h1, hx, hkd⟩ := step_exitBegin hs
+    subst h1
+    refine ⟨t.pausedLe, t.sinceLe, t.stages, t.rounds, t.gone, ?_, ?_⟩
+    · intro x i hx' _ _
+      simp only [Option.some.injEq] at hx'
+      exact Or.inr ⟨hx', hkd⟩
+    · intro x hx'
+      simp only [Option.some.injEq] at hx'
+      rw [← hx']; exact Int.le_refl _
   | failForGood =>
     obtain ⟨h1, _⟩ := step_failForGood hs
     subst h1
-    exact ⟨t.pausedLe, t.sinceLe, t.stages, t.rounds⟩
+    exact ⟨t.pausedLe, t.sinceLe, t.stages, t.rounds, t.gone, t.exit, t.exitLe⟩
   | exit =>
     obtain ⟨i, _, h1⟩ := step_exit hs
     subst h1
-    refine ⟨t.pausedLe, ?_, ?_, ?_⟩ <;> intros <;> simp_all [endInst]
+    refine ⟨t.pausedLe, ?_, ?_, ?_, ?_, ?_, t.exitLe⟩ <;> intros <;> simp_all [endInst]
   | kBegin r =>
-    obtain ⟨i, hi, _, _, hr, _, h1⟩ := step_kBegin hs
+    obtain ⟨i, hi, hmb, h1⟩ := step_kBegin hs
     subst h1
-    have hp : r.primary = true := by rcases hr with h1 | h1 <;> subst h1 <;> rfl
+    have hp : r.primary = true := by rcases mayBegin_primary hmb with h1 | h1 | h1 <;> subst h1 <;> rfl
     refine tinv_update hb ht h t hi ((h.inst i hi).push_kstart r hp) ?_ ?_
     · exact ⟨(set_mono i r s.now).reasons, (set_mono i r s.now).when, fun _ h => h, fun _ h => h,
         fun st hst => List.mem_cons_of_mem _ hst, rfl⟩
@@ -237,13 +310,14 @@ theorem tinv_step {c : Cfg} {s s' : St} (hb : 0 ≤ c.b0) (ht : 0 ≤ c.t0) (h :
     refine ⟨(set_mono i .abandoned s.now).reasons, (set_mono i .abandoned s.now).when, fun _ h => h, ?_, fun _ h => h, rfl⟩
     intro t ht; simp [ht]
   | cycle inp =>
-    obtain ⟨h1, _⟩ := step_cycle hs
+    obtain ⟨h1, hkn⟩ := step_cycle hs
     subst h1
     have spec := cycle_spec h inp
-    obtain ⟨fp, fd, fk, fnew⟩ := cycle_frame h inp
+    obtain ⟨fp, fd, fk, fnew, fx, fg⟩ := cycle_frame h inp
     have hnow : (cycle c inp s).1.now = s.now := spec.2.1
     have hmono := spec.2.2.2.2.2.1
-    refine ⟨?_, ?_, ?_, ?_⟩
+    have hknown := spec.2.2.2.1
+    refine ⟨?_, ?_, ?_, ?_, ?_, ?_, ?_⟩
     · intro p hp; rw [fp] at hp; rw [hnow]; exact t.pausedLe p hp
     · intro i' hi'
       rw [hnow]
@@ -262,8 +336,7 @@ theorem tinv_step {c : Cfg} {s s' : St} (hb : 0 ≤ c.b0) (ht : 0 ≤ c.t0) (h :
     · intro p i' hp hkn hkd hi'
       rw [fp] at hp; rw [fd] at hkd; rw [hnow]
       have hkn0 : s.known = true := by
-        have := spec.2.2.2.1
-        rw [this] at hkn
+        rw [hknown] at hkn
         simp only [Bool.and_eq_true] at hkn
         exact hkn.1
       cases hrun : s.run with
@@ -277,6 +350,42 @@ theorem tinv_step {c : Cfg} {s s' : St} (hb : 0 ≤ c.b0) (ht : 0 ≤ c.t0) (h :
         rcases t.rounds p i hp hkn0 hkd hrun with h1 | h1
         · exact Or.inl h1
         · exact Or.inr ((hmono i i' hrun hi').ks _ h1)
+    · -- no cycle comes for a gone object: this is the cycle of the DELETED event itself, or nothing is gone
+      intro _ g i' hg hi'
+      rw [fg] at hg
+      cases hdel : inp.deleted with
+      | true => rw [hdel] at hg; simp only [if_true, Option.some.injEq] at hg; right; rw [hnow]; exact hg
+      | false =>
+        rw [hdel] at hg; simp only [Bool.false_eq_true, if_false] at hg
+        have := h.goneKnown (by rw [hg]; rfl)
+        rw [hkn] at this; cases this
+    · intro x i' hx hi' hdue
+      rw [fx] at hx; rw [hnow, fd]
+      have hdue' : (s.known = true) ∧ (c.marksExiting = true ∨ i'.since < x) := by
+        simp only [St.exitDue, Bool.and_eq_true, Bool.or_eq_true, decide_eq_true_eq] at hdue
+        rw [hknown] at hdue
+        simp only [Bool.and_eq_true] at hdue
+        exact ⟨hdue.1.1, hdue.2⟩
+      cases hrun : s.run with
+      | none =>
+        exfalso
+        obtain ⟨hsince, _⟩ := fnew hrun i' hi'
+        have hxle := t.exitLe x hx
+        rcases hdue'.2 with hme | hlt
+        · -- nothing is spawned once the operator is marked as exiting
+          have hbl : blockedIn c inp s = true := by simp [blockedIn, hme, hx]
+          have := cycle_run_none c inp s hrun (by simp [hbl])
+          rw [this] at hi'; cases hi'
+        · rw [hsince] at hlt; tick_omega
+      | some i =>
+        have m := hmono i i' hrun hi'
+        have hdue0 : s.exitDue c i x = true := by
+          simp only [St.exitDue, Bool.and_eq_true, Bool.or_eq_true, decide_eq_true_eq]
+          rw [← m.since]; exact hdue'
+        rcases t.exit x i hx hrun hdue0 with ⟨h1, h2⟩ | h1
+        · exact Or.inl ⟨m.ks _ h1, m.reasons _ h2⟩
+        · exact Or.inr h1
+    · intro x hx; rw [fx] at hx; rw [hnow]; exact t.exitLe x hx
 
 theorem tinv_runs {c : Cfg} (hb : 0 ≤ c.b0) (ht : 0 ≤ c.t0) : ∀ (ls : List Label) {s s' : St},
     Inv c s → TInv c s → runs c s ls = some s' → TInv c s'
@@ -292,6 +401,74 @@ theorem tinv_runs {c : Cfg} (hb : 0 ≤ c.b0) (ht : 0 ≤ c.t0) : ∀ (ls : List
 theorem reach_tinv {c : Cfg} {s : St} (hb : 0 ≤ c.b0) (ht : 0 ≤ c.t0) (h : Reach c s) : TInv c s := by
   obtain ⟨t0, ls, hr⟩ := h
   exact tinv_runs hb ht ls (init_inv c t0) (tinv_init c t0) hr
+
+end Kopf.C09
+
+namespace Kopf.C09
+
+/-! ### Once marked (operator exiting / object gone), nothing is spawned -/
+
+/-- `spawn_daemons` returns at once for this memory -/
+def Blocked (c : Cfg) (s : St) : Prop :=
+  (c.marksExiting = true ∧ s.exitAt.isSome = true) ∨ (c.stopsGone = true ∧ s.goneAt.isSome = true)
+
+/-- the two marks are never taken back -/
+theorem step_marks {c : Cfg} {s s' : St} (h : Inv c s) (l : Label) (hs : step c s l = some s') :
+    (∀ x, s.exitAt = some x → s'.exitAt = some x) ∧ (∀ g, s.goneAt = some g → s'.goneAt = some g) := by
+  cases l with
+  | tick d => obtain ⟨h1, _⟩ := step_tick hs; subst h1; exact ⟨fun _ h => h, fun _ h => h⟩
+  | pause => obtain ⟨h1, _⟩ := step_pause hs; subst h1; exact ⟨fun _ h => h, fun _ h => h⟩
+  | resume => have h1 := step_resume hs; subst h1; exact ⟨fun _ h => h, fun _ h => h⟩
+  | kFinal => obtain ⟨h1, _⟩ := step_kFinal hs; subst h1; exact ⟨fun _ h => h, fun _ h => h⟩
+  | failForGood => obtain ⟨h1, _⟩ := step_failForGood hs; subst h1; exact ⟨fun _ h => h, fun _ h => h⟩
+  | exitBegin =>
+    obtain ⟨h1, hx, _⟩ := step_exitBegin hs; subst h1
+    exact ⟨fun x h => (by rw [hx] at h; cases h), fun _ h => h⟩
+  | cycle inp =>
+    obtain ⟨h1, hk⟩ := step_cycle hs; subst h1
+    obtain ⟨_, _, _, _, fx, fg⟩ := cycle_frame h inp
+    refine ⟨fun x hx => (by rw [fx]; exact hx), fun g hg => ?_⟩
+    have := h.goneKnown (by rw [hg]; rfl)
+    rw [hk] at this; cases this
+  | exit => obtain ⟨i, _, h1⟩ := step_exit hs; subst h1; exact ⟨fun _ h => h, fun _ h => h⟩
+  | kBegin r => obtain ⟨i, _, _, h1⟩ := step_kBegin hs; subst h1; exact ⟨fun _ h => h, fun _ h => h⟩
+  | kSignal st => obtain ⟨i, _, _, h1⟩ := step_kSignal hs; subst h1; exact ⟨fun _ h => h, fun _ h => h⟩
+  | kCancel st => obtain ⟨i, _, _, _, _, h1⟩ := step_kCancel hs; subst h1; exact ⟨fun _ h => h, fun _ h => h⟩
+  | kAbandon st => obtain ⟨i, _, _, _, h1⟩ := step_kAbandon hs; subst h1; exact ⟨fun _ h => h, fun _ h => h⟩
+
+theorem blocked_step {c : Cfg} {s s' : St} (h : Inv c s) (b : Blocked c s) (l : Label) (hs : step c s l = some s') :
+    Blocked c s' ∧ s'.spawns = s.spawns ∧ (s.run = none → s'.run = none) := by
+  obtain ⟨mx, mg⟩ := step_marks h l hs
+  have hb' : Blocked c s' := by
+    rcases b with ⟨b1, b2⟩ | ⟨b1, b2⟩
+    · obtain ⟨x, hx⟩ := Option.isSome_iff_exists.mp b2
+      exact Or.inl ⟨b1, by rw [mx x hx]; rfl⟩
+    · obtain ⟨g, hg⟩ := Option.isSome_iff_exists.mp b2
+      exact Or.inr ⟨b1, by rw [mg g hg]; rfl⟩
+  have hsp : s'.spawns = s.spawns := by
+    rw [step_spawns h l hs]
+    cases l with
+    | cycle inp =>
+      have hbl : blockedIn c inp s = true := by
+        rcases b with ⟨b1, b2⟩ | ⟨b1, b2⟩
+        · simp [blockedIn, b1, b2]
+        · simp [blockedIn, b1, b2]
+      simp [hbl]
+    | _ => simp
+  exact ⟨hb', hsp, fun hn => step_run_none h l hs hn hsp⟩
+
+theorem blocked_runs {c : Cfg} : ∀ (ls : List Label) {s s' : St}, Inv c s → Blocked c s → runs c s ls = some s' →
+    Blocked c s' ∧ s'.spawns = s.spawns ∧ (s.run = none → s'.run = none)
+  | [], s, s', _, b, hr => by simp only [runs, Option.some.injEq] at hr; subst hr; exact ⟨b, rfl, fun h => h⟩
+  | l :: ls, s, s', h, b, hr => by
+    simp only [runs] at hr
+    cases hst : step c s l with
+    | none => rw [hst] at hr; cases hr
+    | some s1 =>
+      rw [hst] at hr
+      obtain ⟨b1, sp1, rn1⟩ := blocked_step h b l hst
+      obtain ⟨b2, sp2, rn2⟩ := blocked_runs ls (step_inv h l hst) b1 hr
+      exact ⟨b2, sp2.trans sp1, fun hn => rn2 (rn1 hn)⟩
 
 end Kopf.C09
 
